@@ -481,6 +481,10 @@ func cmdCheck(args []string) int {
 		}
 	}
 	assumptions = append(assumptions, dedup(notes)...)
+	assumptions = append(assumptions, dedup(e.staleHints)...)
+	for _, h := range dedup(e.staleHints) {
+		fmt.Println("note:", h)
+	}
 	assumptions = append(assumptions, dedup(unsup)...)
 	assumptions = append(assumptions,
 		"go/packages + go/ssa (x/tools v0.29.0, naive form) build SSA faithful to the Go specification",
